@@ -148,7 +148,7 @@ pub fn run(ctx: &Ctx) {
     let searches: Vec<(usize, usize)> = ctx.tier.pick(vec![(2, 4), (3, 1)], vec![(2, 8), (3, 3)]);
     let mut malformed_seen = 0u64;
     for (aw, depth) in searches {
-        let alphabet = materialise(plain_cfg(aw));
+        let alphabet = materialise(history_cfg(aw));
         let mut events: Vec<Event> = alphabet.iter().cloned().map(Event::doc).collect();
         events.extend(elementless().into_iter().map(Event::doc));
         events.extend(malformed_events());
